@@ -15,7 +15,8 @@ M = "nucleo_matcher"
 
 SEARCH_1 = ("memchr::memchr", "memchr::memchr2", "memchr::memrchr", "memchr::memrchr2")
 SEARCH_NEW = ("Memchr::<'h>::new", "Memchr2::<'h>::new", "Memchr::new", "Memchr2::new")
-PASS = ("[T]>::iter", "Iterator::enumerate", "IntoIterator::into_iter", "::into_iter", "Iterator::rev", "Iterator::copied", "Iterator::by_ref")
+PASS = ("[T]>::iter", "Iterator::enumerate", "IntoIterator::into_iter", "::into_iter", "Iterator::rev", "Iterator::copied", "Iterator::by_ref",
+        "Iterator::zip", "Iterator::cloned", "Iterator::peekable")
 
 
 def root_of(e):
